@@ -87,6 +87,16 @@ class ScriptedNetworkStack(BaseNetworkStack):
                 sv.add_joint([phys, partner], qm.BELL_VECS[bell_idx])
                 self.partners[phys] = partner
                 self.pair_log.append({"phys": phys, "partner": partner, "bell": bell_idx, "pair": item["pair"]})
+            if f.get("as_qlink10"):
+                # the same response as a qlink-interface 1.0 object, naming the Bell state with that package's own enum
+                import qlink_interface as ql
+                from netqasm.qlink_compat import BellState as NQBell
+
+                return ql.ResCreateAndKeep(
+                    create_id=f.get("create_id", 0), directionality_flag=f.get("directionality_flag", direction), sequence_number=f.get("sequence_number", 0),
+                    purpose_id=f["purpose_id"], remote_node_id=f["remote_node_id"], goodness=f.get("goodness", 0),
+                    bell_state=ql.BellState[NQBell(bell_idx).name], logical_qubit_id=phys, time_of_goodness=f.get("goodness_time", 0),
+                )
             return LinkLayerOKTypeK(
                 type=f.get("type", ReturnType.OK_K),
                 create_id=f.get("create_id", 0),
